@@ -372,7 +372,7 @@ theorem lookup_mem_keys (fs : ConfFS) (k : Text) (f : ConfFile) (h : fs.lookup k
 longer than the number of files.  With fuel + chain length ≥ files + 2 the fuel is not exhausted. -/
 theorem parseIncludingG_of_measure (fs : ConfFS) (fuel : Nat) (f : ConfFile) (including : List Text)
     (hn : including.Nodup) (hsub : ∀ s ∈ including, s ∈ keys fs)
-    (hf : fs.length + 2 ≤ fuel + including.length) : parseIncludingG fs fuel f including ≠ none := by
+    (hf : fs.length + 2 ≤ fuel + including.length) : parseIncludingG true fs fuel f including ≠ none := by
   induction fuel generalizing f including with
   | zero =>
     have hle : including.length ≤ (keys fs).length := hn.length_le_of_subset (fun s hs => hsub s hs)
@@ -411,33 +411,36 @@ theorem parseIncludingG_of_measure (fs : ConfFS) (fuel : Nat) (f : ConfFile) (in
 
 /-- T: loading an image configuration terminates for EVERY include graph (self-includes, cycles of any
 length, diamonds, chains into missing files): the recursion is at most `files + 1` deep -/
-theorem loadConfigG_terminates (fs : ConfFS) (path : Text) : loadConfigG fs path ≠ none := by
+theorem tie_includeBlock : Generated.includeBlock =
+    ["if slices.Contains(including, ic.Include) { return }",
+     "included := &ImageConfiguration{}",
+     "data, err := included.readLocal(ic.Include, includePaths)",
+     "if err != nil { return }",
+     "if err := included.parseIncluding(ctx, data, includePaths, configHasher, append(including, ic.Include)); err != nil { return }",
+     "if err := included.MergeInto(ic); err != nil { return }"] := by rfl
+
+theorem includeChecked_true : includeChecked = true := by
+  simp [includeChecked, tie_includeBlock]
+
+theorem loadConfigG_terminates (fs : ConfFS) (path : Text) : loadConfigG includeChecked fs path ≠ none := by
+  rw [includeChecked_true]
   unfold loadConfigG
   split
   · simp
   · exact parseIncludingG_of_measure fs _ _ [] List.nodup_nil (by simp) (by simp)
 
 /-- without the cycle check a self-include exhausts every fuel: the Go recursion would not return -/
-def parseIncludingNoCheck (fs : ConfFS) : Nat → ConfFile → Option Bool
-  | 0, _ => none
-  | fuel + 1, f =>
-    if !f.decodes then some false else
-    if f.incl = [] then some true else
-    match fs.lookup f.incl with
-    | none => some false
-    | some g => parseIncludingNoCheck fs fuel g
-
-theorem selfInclude_unchecked_diverges (fuel : Nat) :
-    parseIncludingNoCheck [(['a'], ⟨true, ['a']⟩)] fuel ⟨true, ['a']⟩ = none := by
-  induction fuel with
+theorem selfInclude_unchecked_diverges (fuel : Nat) (chain : List Text) :
+    parseIncludingG false [(['a'], ⟨true, ['a']⟩)] fuel ⟨true, ['a']⟩ chain = none := by
+  induction fuel generalizing chain with
   | zero => rfl
-  | succ n ih => simp [parseIncludingNoCheck, List.lookup, ih]
+  | succ n ih => simp [parseIncludingG, List.lookup, ih]
 
 /-- …and with the check the same graph is refused at depth two -/
-example : loadConfigG [("a".toList, ⟨true, "a".toList⟩)] "a".toList = some false := by decide
+example : loadConfigG true [("a".toList, ⟨true, "a".toList⟩)] "a".toList = some false := by decide
 
 /-- a diamond-free chain of three files loads -/
-example : loadConfigG [("a".toList, ⟨true, "b".toList⟩), ("b".toList, ⟨true, "c".toList⟩),
+example : loadConfigG true [("a".toList, ⟨true, "b".toList⟩), ("b".toList, ⟨true, "c".toList⟩),
     ("c".toList, ⟨true, []⟩)] "a".toList = some true := by decide
 
 end Apko.C15S
